@@ -16,7 +16,7 @@ def typegen_cfg(max_depth, rich, tagdefs, extra_inv=True, big=False):
                 'INVARIANT ValuesAdmitted\n' if extra_inv else ''))
 
 
-def generate_cases(run, tier):
+def generate_cases(run, tier, big=True):
     """Binding A universe: BFS over TypeGen + simulation for deeper nestings."""
     if tier == 'big':
         bfs = [(0, False, ['E'], True)]
@@ -34,9 +34,10 @@ def generate_cases(run, tier):
         bfs = [(2, False, ['E', 'I', 'A']), (1, True, ['E', 'A'], True)]
         sim = ('num=3000', 6, ['E', 'I', 'A'])
     cases = []
+    big_ok = big
     for n, b in enumerate(bfs):
         d, rich, tds = b[:3]
-        big = len(b) > 3 and b[3]
+        big = big_ok and len(b) > 3 and b[3]
         out, res = pl.tlc_generate(run, 'TypeGen', typegen_cfg(d, rich, tds, big=big), 'gen%d.ndjson' % n,
                                    workers=8, what='TypeGen BFS depth<=%d rich=%s tagdefs=%s' % (d, rich, tds))
         cases += pl.dedup_cases(out, 'g%d' % n)
@@ -83,12 +84,12 @@ def witness_cases(prop):
     return out
 
 
-def codec_check(prop, tier, seed, codecs, checks, ops, numerics='0,1', rule=None, fixtures=None, model=None):
+def codec_check(prop, tier, seed, codecs, checks, ops, numerics='0,1', rule=None, fixtures=None, model=None, big=('big', 'thorough')):
     run = pl.Run(prop, tier, seed)
     try:
         if model:
             model_check(run, tier, model)
-        cases = generate_cases(run, tier) + witness_cases(prop)
+        cases = generate_cases(run, tier, big=tier in big) + witness_cases(prop)
         cpath = run.path('cases.ndjson')
         pl.write_cases(cases, cpath)
         shards = pl.drive(run, 'drive_codec.py', cpath, 'trace',
